@@ -266,6 +266,36 @@ def build_path(path, variant):
     return wrap(0)
 
 
+# S5: value-shape stress ------------------------------------------------------
+NUM_SPELLINGS = [("+1", 1), ("007", 7), ("1.0", 1.0), ("1e3", 1000.0), ("1E3", 1000.0), (".5", 0.5), ("5.", 5.0), ("-0", 0), ("-0.0", -0.0),
+                 ("1.5e-3", 0.0015), ("+.25", 0.25), ("12345678901234567890", 12345678901234567890)]
+
+
+def s5(otype):
+    """enum words in lower/mixed case, number spellings, list arities 1..7 (those the grammar accepts are judged by C02, the rest by C11)"""
+    for s in V.slots(otype):
+        if s.kind != "simple":
+            continue
+        for a in s.alts:
+            if a.kind == "enum":
+                for w in a.words:
+                    if isinstance(w, str) and w.lower() not in V.GRAMMAR_WORDS:
+                        for spelled in (w.lower(), w[:1].upper() + w[1:].lower()):
+                            yield ("S5 %s.%s enum case" % (otype, s.key), Block(otype, [kw(s.key, V.Rep([("word", spelled)], spelled, ["word"]))]))
+            elif a.kind in ("number", "integer"):
+                for text, val in NUM_SPELLINGS:
+                    yield ("S5 %s.%s number spelling" % (otype, s.key), Block(otype, [kw(s.key, V.Rep([("num", text)], val, ["num"]))]))
+            elif a.kind == "numlist":
+                for n in (1, 2, 3, 4, 6):
+                    vals = [1, 2.5, 3, 4, 5, 6][:n] if n in (2, 4) else [1, 2, 3, 4, 5, 6][:n]
+                    value = vals[0] if n == 1 else list(vals)
+                    yield ("S5 %s.%s arity %d" % (otype, s.key, n), Block(otype, [kw(s.key, V.Rep([("num", V.num_text(v)) for v in vals], value, ["num"] * n))]))
+            elif a.kind == "string":
+                for sv in ("UPPER", "MiXeD", "with  two  spaces", " lead", "trail ", "tab\there", "semi;colon", "back\\slash", "pct%age", "[not closed", "(paren", "{brace", "/slash"):
+                    yield ("S5 %s.%s string" % (otype, s.key), Block(otype, [kw(s.key, V.Rep([("str", sv)], sv, ["qstr"]))]))
+                break
+
+
 # root lists ------------------------------------------------------------------
 def root_lists():
     """lists of blocks at the root (partial Mapfiles)"""
@@ -300,6 +330,8 @@ def doc_units(names, tier, all_rep_pairs=None, triples=None):
                     us += [("S3t", t, i) for i in range(k)]
         elif n == "S4":
             us.append(("S4",))
+        elif n == "S5":
+            us += [("S5", t) for t in types]
         elif n == "ROOT":
             us.append(("ROOT",))
     return us
@@ -317,6 +349,8 @@ def iter_unit(unit, valid_only=False):
         return s3_triples(unit[1], unit[2])
     if n == "S4":
         return s4()
+    if n == "S5":
+        return s5(unit[1])
     if n == "ROOT":
         return root_lists()
     raise ValueError(unit)
